@@ -52,7 +52,7 @@ Print Assumptions an_update_keeps_the_entry_in_sync.
 
 (* the handshake: one definition (or delProperty) per property, each of the current state *)
 Theorem handshake_answer_covers_every_property d dn :
-  quiet d -> NoDup (map (fun gv => v_name (snd gv)) (all_vecs d)) ->
+  Driver.Props.quiet d -> NoDup (map (fun gv => v_name (snd gv)) (all_vecs d)) ->
   from_client d (getprops dn None) =
   (d, map (fun gv => Publish (def_msg d (fst gv) (snd gv))) (all_vecs d)).
 Proof. exact (getprops_all d dn). Qed.
